@@ -33,6 +33,62 @@ type c18Req struct {
 
 type c18Params struct {
 	Reqs []c18Req `json:"requests"`
+	// XVariant > 0: a third collection "cvx" created through the v2 API whose property
+	// is literally named "vector" (the name the v1 API assumes) with a schema entry of
+	// variant XVariant (see c18XSchemas): another index type, stray parameter blocks
+	XVariant int `json:"x_variant,omitempty"`
+}
+
+// c18XSchemas: schema of collection cvx and a well-formed value of its "vector"
+// property. Entry 0 is unused (no cvx).
+var c18XSchemas = []struct {
+	schema string
+	value  any
+	dims   []int // vector lengths worth trying through the v1 API
+}{
+	{},
+	{`{"vector":{"type":"vectorFlat","vectorFlat":{"vectorSize":4,"distanceMetric":"euclidean"},"vectorVamana":{"vectorSize":2,"distanceMetric":"euclidean","searchSize":75,"degreeBound":64,"alpha":1.2}}}`, []any{1.0, 2.0, 3.0, 4.0}, []int{2, 4}},
+	{`{"vector":{"type":"vectorFlat","vectorFlat":{"vectorSize":3,"distanceMetric":"cosine"}}}`, []any{0.6, 0.8, 0.0}, []int{3}},
+	{`{"vector":{"type":"string","string":{"caseSensitive":false},"vectorVamana":{"vectorSize":3,"distanceMetric":"euclidean","searchSize":75,"degreeBound":64,"alpha":1.2}}}`, "abc", []int{3}},
+	{`{"vector":{"type":"vectorVamana","vectorVamana":{"vectorSize":3,"distanceMetric":"euclidean","searchSize":75,"degreeBound":64,"alpha":1.2},"vectorFlat":{"vectorSize":5,"distanceMetric":"dot"}}}`, []any{1.0, 2.0, 3.0}, []int{3, 5}},
+	{`{"vector":{"type":"text","text":{"analyser":"standard"},"vectorVamana":{"vectorSize":2,"distanceMetric":"cosine","searchSize":75,"degreeBound":64,"alpha":1.2},"vectorFlat":{"vectorSize":2,"distanceMetric":"cosine"}}}`, "quick brown fox", []int{2}},
+}
+
+func c18XBases(r *rand.Rand, xv int) []c18Base {
+	x := c18XSchemas[xv]
+	vec := func() []any {
+		out := make([]any, pick(r, x.dims))
+		for i := range out {
+			out[i] = float64(1 + r.IntN(9))
+		}
+		return out
+	}
+	var sv map[string]any
+	json.Unmarshal([]byte(x.schema), &sv)
+	typ := sv["vector"].(map[string]any)["type"].(string)
+	var v2q map[string]any
+	switch typ {
+	case "vectorFlat":
+		v2q = map[string]any{"property": "vector", "vectorFlat": map[string]any{"vector": deepCopy(x.value), "operator": "near", "limit": 5.0}}
+	case "vectorVamana":
+		v2q = map[string]any{"property": "vector", "vectorVamana": map[string]any{"vector": deepCopy(x.value), "operator": "near", "searchSize": 30.0, "limit": 5.0}}
+	case "string":
+		v2q = map[string]any{"property": "vector", "string": map[string]any{"value": "abc", "operator": "equals"}}
+	default:
+		v2q = map[string]any{"property": "vector", "text": map[string]any{"value": "fox", "operator": "containsAny", "limit": 5.0}}
+	}
+	return []c18Base{
+		{"GET", "/v1/collections/cvx", nil},
+		{"POST", "/v1/collections/cvx/points", map[string]any{"points": []any{map[string]any{"id": PID(7000 + r.IntN(900)).String(), "vector": vec(), "metadata": map[string]any{"a": 1.0}}}}},
+		{"POST", "/v1/collections/cvx/points", map[string]any{"points": []any{map[string]any{"vector": vec()}}}},
+		{"PUT", "/v1/collections/cvx/points", map[string]any{"points": []any{map[string]any{"id": PID(7900).String(), "vector": vec()}}}},
+		{"DELETE", "/v1/collections/cvx/points", map[string]any{"ids": []any{PID(7901).String()}}},
+		{"POST", "/v1/collections/cvx/points/search", map[string]any{"vector": vec(), "limit": 5.0}},
+		{"POST", "/v2/collections/cvx/points/search", map[string]any{"query": v2q, "limit": 5.0}},
+		{"POST", "/v2/collections/cvx/points/search", map[string]any{"query": v2q, "limit": 5.0}},
+		{"POST", "/v2/collections/cvx/points", map[string]any{"points": []any{map[string]any{"vector": deepCopy(x.value), "k": "v"}}}},
+		{"GET", "/v2/collections/cvx", nil},
+	}
 }
 
 type c18 struct{}
@@ -42,7 +98,7 @@ func init() { Register(c18{}) }
 func (c18) ID() string { return "C18" }
 
 func (c18) Rule() string {
-	return "each run = one real node behind its real HTTP handler chain (v1 and v2 routers, all middleware incl. panic recovery), holding a v2 collection with every index kind and a v1 collection, both with points; 40-80 seeded requests: structurally valid requests for every endpoint of both API versions mutated field by field (wrong types, missing / extra fields, null, NaN / Inf / huge numbers via MessagePack, vector lengths 0 / 1 / dim-1 / dim+1 / 4096 / 4097, limits and search sizes at and beyond their bounds, empty / very long / non-UTF8 strings, reserved property names, deep nesting, duplicate keys, truncated and random bodies, wrong or missing content type and headers, malformed collection ids), JSON and MessagePack. Oracle after every request: no panic in any goroutine (a crash event ends the run), never a 5xx (except for requests labelled NaN/Inf/huge, which are only required not to crash), a 4xx leaves the logical digest of every node database and shard file unchanged, requests labelled as schema-violating must get a 4xx, and the interposed distance functions never see operands of different length. Non-trivial: >= 10 requests answered 2xx and >= 10 answered 4xx. Distinct: trace hash."
+	return "each run = one real node behind its real HTTP handler chain (v1 and v2 routers, all middleware incl. panic recovery), holding a v2 collection with every index kind, a v1 collection and a v2-created collection whose property is named vector (the name the v1 API assumes) with one of five schema variants (other index type, stray parameter blocks of another type and dimension), all with points; 40-80 seeded requests: structurally valid requests for every endpoint of both API versions mutated field by field (wrong types, missing / extra fields, null, NaN / Inf / huge numbers via MessagePack, vector lengths 0 / 1 / dim-1 / dim+1 / 4096 / 4097, limits and search sizes at and beyond their bounds, empty / very long / non-UTF8 strings, reserved property names, deep nesting, duplicate keys, truncated and random bodies, wrong or missing content type and headers, malformed collection ids), JSON and MessagePack. Oracle after every request: no panic in any goroutine (a crash event ends the run), never a 5xx (except for requests labelled NaN/Inf/huge, which are only required not to crash), a 4xx leaves the logical digest of every node database and shard file unchanged, requests labelled as schema-violating must get a 4xx, and the interposed distance functions never see operands of different length. Non-trivial: >= 10 requests answered 2xx and >= 10 answered 4xx. Distinct: trace hash."
 }
 
 const c18Dim = 3
@@ -59,7 +115,15 @@ type c18Base struct {
 	body         map[string]any
 }
 
-func c18Bases(r *rand.Rand, nextID *int) []c18Base {
+func c18Bases(r *rand.Rand, nextID *int, xv int) []c18Base {
+	out := c18BasesMain(r, nextID)
+	if xv > 0 {
+		out = append(out, c18XBases(r, xv)...)
+	}
+	return out
+}
+
+func c18BasesMain(r *rand.Rand, nextID *int) []c18Base {
 	v := func() []any { return []any{float64(r.IntN(5)), float64(r.IntN(5)), 1.0} }
 	newPts := func(n int) []any {
 		var out []any
@@ -182,7 +246,7 @@ func deepCopy(t any) any {
 	switch x := t.(type) {
 	case map[string]any:
 		m := map[string]any{}
-		for k, v := range x {
+		for k, v := range detRange(x) {
 			m[k] = deepCopy(v)
 		}
 		return m
@@ -234,15 +298,17 @@ func lastKey(p c18Path) string {
 
 func (c18) Generate(r *rand.Rand, tier string) (sim.Config, any) {
 	cfg := RandomSimConfig(r)
+	cfg.StmtYield = pick(r, []float64{0, 0, 0.02, 0.1}) // statement-level preemption in the handler / cluster packages
 	cfg.IdleLimitSec = 3600
 	var p c18Params
+	p.XVariant = 1 + r.IntN(len(c18XSchemas)-1)
 	nextID := 12
 	n := 40 + r.IntN(40)
 	if tier == "thorough" {
 		n = 80 + r.IntN(80)
 	}
 	for len(p.Reqs) < n {
-		b := pick(r, c18Bases(r, &nextID))
+		b := pick(r, c18Bases(r, &nextID, p.XVariant))
 		req := c18Req{Method: b.method, Path: b.path, CT: "application/json", User: "hostile", Plan: "p", Label: "no5xx", Desc: "valid"}
 		tree := deepCopy(map[string]any(b.body))
 		if b.body == nil {
@@ -289,6 +355,11 @@ func (c18) Generate(r *rand.Rand, tier string) (sim.Config, any) {
 						tree = c18Set(tree, pth, vecOf(nl), false)
 						req.Desc = fmt.Sprintf("vector length %d at %v", nl, pth)
 						req.Label = "must4xx"
+						if strings.Contains(b.path, "cvx") {
+							// cvx has other dimensions than cv1 / cv2 (a drawn length may be the valid
+							// one): only the generic oracles judge, incl. the distance-length guard
+							req.Label = "no5xx"
+						}
 					} else {
 						tree = c18Set(tree, pth, pick(r, []any{-1.0, 0.0, 76.0, 101.0, 1e9, 24.0, 0.5}), false)
 						req.Desc = fmt.Sprintf("boundary number at %v", pth)
@@ -385,7 +456,7 @@ func (c18) Generate(r *rand.Rand, tier string) (sim.Config, any) {
 					req.Label = "must4xx"
 				}
 			default:
-				req.Path = strings.Replace(req.Path, "cv2", pick(r, []string{"x", "a-b", "nope12", strings.Repeat("z", 30), "CV2", "cv2%2F..", "cv1"}), 1)
+				req.Path = strings.Replace(strings.Replace(req.Path, "cvx", "cv2", 1), "cv2", pick(r, []string{"x", "a-b", "nope12", strings.Repeat("z", 30), "CV2", "cv2%2F..", "cv1"}), 1)
 				req.Desc = "collection id " + req.Path
 			}
 		}
@@ -431,9 +502,9 @@ func (c18) Shrink(raw json.RawMessage) []json.RawMessage {
 	json.Unmarshal(raw, &p)
 	var out []json.RawMessage
 	if len(p.Reqs) > 1 {
-		out = append(out, mustJSON(c18Params{Reqs: p.Reqs[len(p.Reqs)/2:]}), mustJSON(c18Params{Reqs: p.Reqs[:len(p.Reqs)/2]}))
+		out = append(out, mustJSON(c18Params{XVariant: p.XVariant, Reqs: p.Reqs[len(p.Reqs)/2:]}), mustJSON(c18Params{XVariant: p.XVariant, Reqs: p.Reqs[:len(p.Reqs)/2]}))
 		for i := len(p.Reqs) - 1; i >= 0; i-- {
-			q := c18Params{Reqs: append(append([]c18Req(nil), p.Reqs[:i]...), p.Reqs[i+1:]...)}
+			q := c18Params{XVariant: p.XVariant, Reqs: append(append([]c18Req(nil), p.Reqs[:i]...), p.Reqs[i+1:]...)}
 			out = append(out, mustJSON(q))
 		}
 	}
@@ -494,6 +565,21 @@ func (c18) Execute(env *Env) {
 		if st := do("POST", "/v1/collections/cv1/points", map[string]any{"points": p1}); st != 200 {
 			env.Infra("setup: insert cv1: %d", st)
 			return
+		}
+		if p.XVariant > 0 {
+			x := c18XSchemas[p.XVariant]
+			if st := do("POST", "/v2/collections", map[string]any{"id": "cvx", "indexSchema": json.RawMessage(x.schema)}); st != 200 {
+				env.Infra("setup: create cvx (variant %d): %d", p.XVariant, st)
+				return
+			}
+			var px []any
+			for i := 0; i < 3; i++ {
+				px = append(px, map[string]any{"_id": PID(7950 + i).String(), "vector": x.value, "k": float64(i)})
+			}
+			if st := do("POST", "/v2/collections/cvx/points", map[string]any{"points": px}); st != 200 {
+				env.Infra("setup: insert cvx (variant %d): %d", p.XVariant, st)
+				return
+			}
 		}
 		for i, q := range p.Reqs {
 			before, err := clusterDigest(w)
